@@ -833,7 +833,7 @@ Lemma control_spec o ot ev w :
   run_req o (QControl ot) w =
   if sec_err sec
   then (mkWorld sERROR true,
-        (if sec_err (fsm_section env_events api_bodyful o st1 eGO_ERROR) then 3 else 0, Some sERROR),
+        (3, Some sERROR),
         sec_trace sec ++ fallback_trace o st1)
   else (mkWorld st1 true, (0, Some st1), sec_trace sec).
 Proof.
@@ -900,7 +900,7 @@ Lemma control_illegal_inert o ot ev w :
   (forall e, ~ In (Body e) (snd (run_req o (QControl ot) w))) /\
   fst (fst (run_req o (QControl ot) w)) = mkWorld sERROR true /\
   snd (snd (fst (run_req o (QControl ot) w))) = Some sERROR /\
-  (fst (snd (fst (run_req o (QControl ot) w))) = 0 \/ fst (snd (fst (run_req o (QControl ot) w))) = 3).
+  fst (snd (fst (run_req o (QControl ot) w))) = 3.
 Proof.
   intros Hl Hm Hd. apply (illegal_is_disabled ot ev (w_st w) Hm) in Hd.
   destruct (make_transition_names ot ev Hm) as [_ Hne].
@@ -915,7 +915,7 @@ Proof.
   - intros e Hx. destruct (fallback_items o (w_st w) _ Hx) as [H1 _]. apply (H1 e). reflexivity.
   - reflexivity.
   - reflexivity.
-  - destruct (sec_err (fsm_section env_events api_bodyful o (w_st w) eGO_ERROR)); [right|left]; reflexivity.
+  - reflexivity.
 Qed.
 
 (* a first TryTransition that returns an error: the environment ends in ERROR, which is also the
@@ -925,11 +925,10 @@ Lemma control_failed_is_error o ot ev w :
   sec_err (fsm_section env_events api_bodyful o (w_st w) ev) = true ->
   fst (fst (run_req o (QControl ot) w)) = mkWorld sERROR true /\
   snd (snd (fst (run_req o (QControl ot) w))) = Some sERROR /\
-  (fst (snd (fst (run_req o (QControl ot) w))) = 0 \/ fst (snd (fst (run_req o (QControl ot) w))) = 3).
+  fst (snd (fst (run_req o (QControl ot) w))) = 3.
 Proof.
   intros Hl Hm He. rewrite (control_spec o ot ev w Hl Hm). rewrite He. cbn [fst snd].
-  split; [reflexivity|]. split; [reflexivity|].
-  match goal with |- context [if ?b then 3 else 0] => destruct b end; [right|left]; reflexivity.
+  split; [reflexivity|]. split; reflexivity.
 Qed.
 
 (* a first TryTransition that returns no error: the documented destination, reported as such *)
